@@ -701,6 +701,13 @@ def build(S):
         V = object()
         for ranges, orth, vecs in ((("lower", "upper"), False, (None, None)), (("lower", "upper"), False, (V, V)), (("lower", "upper"), False, (None, V)), (("lower",), True, (V, None)), (("upper",), True, (None, V)), ((), True, (None, None))):
             S.contract("combineSfuncs[ranges=%s,%s,vec=%s]" % ("+".join(ranges) or "none", "orthogonal given" if orth else "no orthogonal function", "/".join("-" if v is None else "v" for v in vecs)), E_ + "combineSfuncs", make_combine_run(ranges, orth, vecs), expected_exceptions=(ValueError,), shape="symbolic ny, L, ranges; component spacing functions uninterpreted", feas_timeout_ms=4000)
+        from . import C08
+        from . import topokit as tk
+
+        S.under_contract("hypnotoad.cases.tokamak:TokamakEquilibrium.describeDoubleNull", "hypnotoad.cases.tokamak:TokamakEquilibrium.describeSingleNull")
+        for topo in tk.TOPOLOGIES:
+            # which end of a leg is a wall / an X-point (the label getSpacings keys on) agrees with its connections
+            S.contract("region kinds vs connections[%s]" % topo, "hypnotoad.cases.tokamak:TokamakEquilibrium.describeDoubleNull", C08.make_pins_run(topo), expected_exceptions=(ValueError,), raises_ok=lambda p: True, shape="sizes symbolic")
         S.under_contract("hypnotoad.core.equilibrium:PsiContour.getRegridded")
         for el, eu in ((0, 0), (2, 0), (0, 2), (2, 2)):
             for wf in (True, False):
